@@ -12,10 +12,18 @@
     `Proofs/RGSW*.lean` / `Props/C20.lean` is about these definitions, for every commutative ring.
 
   * the EXECUTABLE instance on `Lattigo.RPoly` (canonical RNS rows of R_QP): the gadget vector, the
-    digit counts and the THREE decompositions the evaluator uses exactly as coded
-    (`externalProduct32Bit`, `externalProductInPlaceSinglePAndBitDecomp`,
-    `externalProductInPlaceMultipleP`), the rounded division by `P` (`ModDownQPtoQNTT`), and the
-    word-level accumulator of the 32-bit path with its guard `acc32BitFits`.
+    digit counts, the greedy partition of the Q primes into RNS digits (`Par.group`) and the TWO digit layouts of
+    the evaluator exactly as coded (`digitsBit`: uncentred base-`2^w` digits of `externalProduct32Bit` and
+    `externalProductInPlaceSinglePAndBitDecomp`; `digitsGroup`: centred RNS digits of
+    `externalProductInPlaceMultipleP`), the rounded division by `P` (`modDown` = `ModDownQPtoQNTT`, exact CRT), and
+    two WORD-LEVEL pieces: the 64-bit accumulator of the 32-bit path with its guard (`acc32`, `slot32`, `acc32Fits`)
+    and the lazy accumulators of the multi-`P` path with their reduction schedule (`accSched`, `lazySlot`,
+    `lazyMargin`).
+
+  Status (details in `Props/C20.lean`): the generic layer carries the identities for every commutative ring; the
+  `RPoly` instance carries `C20Stack.extprod_phase_full` and `Props.C20.extprod_noise_closed` (no hypothesis left with an
+  auxiliary modulus); the word-level pieces carry `path_eq_guarded` / `extprod_lazy_no_wrap`; their assembly into
+  `extProdR` through the NTT is tied by the correspondence (`extprod`, `ep32raw`, `eplazy`), not proved.
 
   Rows are kept in a FLAT list in the storage order of the code (`i` = RNS digit outer, `j` = base-2
   digit inner).  Sampled values are INPUTS.  Everything is in the canonical representation
